@@ -89,6 +89,8 @@ HARNESSES = [
       bounds='two arbitrary records: any seq, any node id, signatures of 0..=6 bytes'),
     H('a15_transitive', 'harness', ['C15'], unwind=40, mem_gb=8, timeout=1200, covers=['chain of equal records'],
       bounds='three arbitrary records'),
+    H('a15_compare_lengths', 'harness', ['C15', 'C03'], unwind=12, mem_gb=12, timeout=1800,
+      bounds='records {k}, {k,n}, {k,n,z} with equal seq and equal leading pairs'),
     H('a15_compare_content', 'harness', ['C15', 'C03'], unwind=12, mem_gb=12, timeout=1800,
       covers=['same content, other signature', 'same seq and keys, other value'],
       bounds='two records with content {k, one custom one-byte key} and values of 1..=3 bytes'),
@@ -113,6 +115,15 @@ HARNESSES = [
     H('u_set_public_key', 'harness', ['C05', 'C06', 'C07', 'C08', 'C09', 'C10', 'C14', 'C03'], variant='m32', unwind=8, mem_gb=14, timeout=2400,
       covers=['update Ok', 'Err(SequenceNumberTooHigh)', 'Err(SigningError)', 're-keyed'] + ["set to the signer's own key"],
       bounds='pre-state {id,k}; set_public_key(any key of the scheme); any seq, valid signature of 3..=6 bytes, any signer (same/other key, may fail, sig 3..=6 bytes); MAX_ENR_SIZE scaled to 32'),
+    H('u_remove_absent', 'harness', ['C05', 'C06', 'C07', 'C08', 'C09', 'C10', 'C14', 'C03'], variant='m32', unwind=8, mem_gb=14, timeout=2400,
+      covers=['update Ok', 'Err(SequenceNumberTooHigh)', 'Err(SigningError)', 're-keyed'],
+      bounds='pre-state {id,k,tcp}; remove_key("udp") (absent key); any seq, valid signature of 3..=6 bytes, any signer (same/other key, may fail, sig 3..=6 bytes); MAX_ENR_SIZE scaled to 32'),
+    H('u_set_tcp_socket4', 'harness', ['C05', 'C06', 'C07', 'C08', 'C09', 'C10', 'C14', 'C03'], variant='m32', unwind=8, mem_gb=14, timeout=2400,
+      covers=['update Ok', 'Err(ExceedsMaxSize)', 'Err(SigningError)', 're-keyed'],
+      bounds='pre-state {id,k} with seq < 2^32; set_tcp_socket(any IPv4 address, any port); any seq, valid signature of 3..=6 bytes, any signer (same/other key, may fail, sig 3..=6 bytes); MAX_ENR_SIZE scaled to 32'),
+    H('u_set_udp_socket6', 'harness', ['C05', 'C06', 'C07', 'C08', 'C09', 'C10', 'C14', 'C03'], tier='thorough', variant='m48b56', unwind=8, mem_gb=30, timeout=3600,
+      covers=['update Ok', 'Err(ExceedsMaxSize)', 'Err(SigningError)', 're-keyed'],
+      bounds='pre-state {id,k} with seq < 2^16; set_udp_socket(IPv6 address with 3 symbolic bytes, any port); any seq, valid signature of 3..=6 bytes, any signer (same/other key, may fail, sig 3..=6 bytes); MAX_ENR_SIZE scaled to 48, buffers 56 bytes'),
     H('u_build', 'harness', ['C05', 'C07', 'C08', 'C09', 'C10', 'C14', 'C03'], variant='m32', unwind=8, mem_gb=26, timeout=2400,
       covers=['build Ok', 'Err(ExceedsMaxSize)', 'Err(SigningError)'],
       bounds='builder: any seq, tcp4(any port), any signer; MAX_ENR_SIZE scaled to 32'),
@@ -129,10 +140,12 @@ HARNESSES = [
     H('d_min_lite', 'harness', ['C01', 'C02', 'C13', 'C03'], variant='m32', unwind=3, mem_gb=30, timeout=3600, flags=['--no-memory-safety-checks'],
       covers=['decode Ok', 'well-formed but signature rejected'],
       bounds='template [sig4, seq 81xx, id:<2 bytes>, k:81xx]: all 2^64 fillings, uninterpreted verifier, lean observations'),
-    H('d_gate', 'harness', ['C09', 'C02', 'C13', 'C03'], variant='plain', unwind=4, mem_gb=10, timeout=1200,
-      cbmc=['--max-field-sensitivity-array-size', '600'],
-      covers=['301-byte item refused for size', '300-byte item passes the gate'],
-      bounds='unscaled source: outer list header announcing 256..=420 payload bytes, 0..=64 bytes after the item'),
+    H('d_gate_300', 'harness', ['C09', 'C02', 'C13', 'C03'], variant='plain', unwind=4, mem_gb=10, timeout=1200,
+      covers=['1000 bytes after the item', 'nothing after the item'],
+      bounds='UNSCALED source (limit 300): a 300-byte item followed by 0..=1000 further bytes'),
+    H('d_gate_301', 'harness', ['C09', 'C02', 'C13', 'C03'], variant='plain', unwind=4, mem_gb=10, timeout=1200,
+      covers=['1000 bytes after the item', 'nothing after the item'],
+      bounds='UNSCALED source (limit 300): a 301-byte item followed by 0..=1000 further bytes'),
     # ---- family G: key back-end glue, primitive stubbed (C01, C10, C11 fragment) ----------------
     H('g_k256_verify', 'harness-glue', ['C01', 'C03'], variant='plain', unwind=70, mem_gb=10, timeout=1500,
       unwindset=[(r'GenericArray<u8.*GenericSequence<u8>>::generate', 140), (r'block_buffer::BlockBuffer', 140)],
